@@ -61,6 +61,11 @@ class Impl(bfs.System):
                     return ("n/a",)
                 orch.set_invocation_status(self.ids[op[1]], S[nxt], runner_ctx("r1"))
                 return ("ok", nxt)
+            if op[0] == "stale-finish":
+                # a runner that no longer holds the invocation (it was rerouted / never started by it) reports its
+                # completion: the change must be refused and nothing else may happen
+                orch.set_invocation_status(self.ids[op[1]], S.SUCCESS, runner_ctx("r1"))
+                return ("accepted",)
         except Exception as e:  # noqa: BLE001
             return ("raise", type(e).__name__)
         raise ValueError(op)
@@ -121,6 +126,9 @@ def alphabet(nids: int, hist: list) -> list[tuple]:
         if st[x] == "RUNNING" and any(a == x for (a, _) in edges):
             continue
         ops.append(("step", x))
+    for x in range(nids):
+        if st[x] in ("REGISTERED", "PENDING") and any(b == x for (_, b) in edges) and ("stale-finish", x) not in hist:
+            ops.append(("stale-finish", x))
     return ops
 
 
